@@ -148,13 +148,14 @@ open Nima.Frag
 
 `Model/Cst.lean` (input: concrete-syntax trees with explicit gaps), `Model/FromCst.lean`
 (`NixSourceCode.from_cst`, `AttributeSet.from_cst`, `Binding.from_cst`, `NixList.from_cst`,
-`Parenthesis.from_cst`, `FunctionCall.from_cst`, `WithStatement.from_cst`, `parse_delimited_sequence`)
+`Parenthesis.from_cst`, `FunctionCall.from_cst`, `WithStatement.from_cst`, `Assertion.from_cst`,
+`parse_delimited_sequence`)
 and `Model/Rebuild.lean` (`rebuild` of the same classes, string level and piece level) model the parse
 side and the render side for files made of attribute sets with plain single-segment names, lists,
-parenthesised expressions `( e )`, function applications `f x` / `f x y`, `with e; body` and leaf
-values, nested to any depth, with arbitrary whitespace and line / one-line block comments in every gap
-(inside parentheses and between function and argument too; the three gaps of a `with` itself —
-after the keyword and around its `;` — hold whitespace only: `Cst.wf`). The statements below are about EVERY such tree
+parenthesised expressions `( e )`, function applications `f x` / `f x y`, `with e; body`,
+`assert e; body` and leaf values, nested to any depth, with arbitrary whitespace and line / one-line
+block comments in every gap (inside parentheses and between function and argument too; the three gaps
+of a `with` / `assert` itself — after the keyword and around its `;` — hold whitespace only: `Cst.wf`). The statements below are about EVERY such tree
 (structural induction), tied to the implementation by `fragment_correspondence`. -/
 
 /-- The piece list the theorems speak about is the output text, cut into pieces. -/
@@ -258,6 +259,21 @@ example : withSample.flatten = "with a;\n\n{ x = with (f b) ; [\n c ]; }".toList
 example : withSample.wf = true ∧ withSample.noLeadingWs = true := by decide
 example : withSample.codeTokens =
     ["with", "a", ";", "{", "x", "=", "with", "(", "f", "b", ")", ";", "[", "c", "]", ";", "}"].map String.toList := by decide
+
+/-- `assert⏎  (f a);⏎⏎with e; [ b ]`: a condition on its own line, a blank line in front of the body -/
+def assertSample : File :=
+  { items := .elem []
+      (.kw false [] "\n  ".toList
+        (.paren (.elem [] (.app (.leaf .ident "f".toList) [] " ".toList (.leaf .ident "a".toList)) .nil) [])
+        [] [] [] "\n\n".toList
+        (.kw true [] " ".toList (.leaf .ident "e".toList) [] [] [] " ".toList
+          (.list (.elem " ".toList (.leaf .ident "b".toList) .nil) " ".toList))) .nil,
+    endGap := [] }
+
+example : assertSample.flatten = "assert\n  (f a);\n\nwith e; [ b ]".toList := by decide
+example : assertSample.wf = true ∧ assertSample.noLeadingWs = true := by decide
+example : assertSample.codeTokens =
+    ["assert", "(", "f", "a", ")", ";", "with", "e", ";", "[", "b", "]"].map String.toList := by decide
 
 end Fragment
 
